@@ -115,8 +115,11 @@ def run(ctx):
                 devp = {d["name"]: d["params"] for d in c["pydiamond"]}
                 got = {x["name"]: [re.sub(r"^inherited\d+__", "", p) for p in x["params"]] for x in dump["classes"]}
                 cn = clause.split(":", 1)[1] if clause.startswith("ctor:") else None
+                devr = {d["name"]: d["params"] for d in c.get("pyredecl", [])}
                 if cn in devp and got.get(cn) == devp[cn]:
                     key = "dev:Dev_PyCtorRepeatsSharedAncestor"
+                elif cn in devr and got.get(cn) == devr[cn]:
+                    key = "dev:Dev_PyRedeclaredIsOwnParameter"
                 else:
                     key = "%s|%s" % (clause, key0)
                 ctx.violation(key, msg[:500], {"choice": c["choice"], "input": txt, "clause": clause})
